@@ -248,7 +248,10 @@ FSDThres(s, cs, i) ==
   IF ~Has(cs, i, Ref(s.h.sd)) THEN One1(BoolV(FALSE))
   ELSE LET dx == Abs(Sub(X(cs, i, s.in), X(cs, i - 1, s.in)))
            th == Mul(X(cs, i, Ref(s.h.sd)), s.m)
-       IN IF IsNaR(dx) \/ IsNaR(th) THEN One1(NarV) ELSE One1(BoolV(Gt(dx, th)))
+       IN IF IsNaR(dx) \/ IsNaR(th) THEN One1(NarV)
+          \* an exact tie is decided by float noise in the subtraction: either answer is accepted
+          ELSE IF dx = th THEN <<BoolV(TRUE), BoolV(FALSE)>>
+          ELSE One1(BoolV(Gt(dx, th)))
 
 \* Python == between the counted value and a reading (True == 1, 1 == 1.0)
 AsNum(v) == CASE v.t = "b" -> (IF v.b THEN One ELSE Zero) [] v.t = "q" -> NumOf(v) [] OTHER -> NaR
@@ -497,10 +500,10 @@ Ser(fk, name, top, rv, kind, p, in, m, h) ==
 
 SubRv == 4      \* sub-indicators are built with the default round_value
 
-\* ATR with its TR helper (TR() keeps its default name "TR" wherever it is nested)
+\* ATR with its TR helper, named after its owner
 ATRSeries(name, top, rv, kind, p) ==
-  <<Ser("TR", "TR", FALSE, SubRv, kind, 0, Ref(""), Zero, NoH),
-    Ser("ATR", name, top, rv, kind, p, Ref("TR"), Zero, NoH)>>
+  <<Ser("TR", name \o "_TR", FALSE, SubRv, kind, 0, Ref(""), Zero, NoH),
+    Ser("ATR", name, top, rv, kind, p, Ref(name \o "_TR"), Zero, NoH)>>
 
 SDSeries(name, top, rv, kind, p, in) ==
   LET h == [data |-> name \o "_data"]
@@ -526,7 +529,7 @@ SeriesOf(c) ==
        [] k = "ATR" -> ATRSeries(nm, TRUE, rv, k, c.p)
        [] k = "STDEV" -> SDSeries(nm, TRUE, rv, k, c.p, c.in)
        [] k = "BBANDS" ->
-            LET h == [sma |-> "SMA_" \o ToString(c.p), sd |-> "STDEV_" \o ToString(c.p)]
+            LET h == [sma |-> nm \o "_SMA", sd |-> nm \o "_STDEV"]
             IN SDSeries(h.sd, FALSE, SubRv, k, c.p, c.in)
                \o <<Ser("SMA", h.sma, FALSE, SubRv, k, c.p, c.in, Zero, NoH),
                     Ser("BB", nm, TRUE, rv, k, c.p, c.in, Zero, h)>>
